@@ -212,3 +212,53 @@ Theorem C15_sys_ctx_call_records : forall s o, (forall z, o <> SetZIndex z) ->
         (fold_left cv_ev (map EvRec (snd (ctx_step (cvW (scv s)) (cvH (scv s)) (sctx s) o))) (scv s)).
 Proof. exact sys_ctx_call_records. Qed.
 Print Assumptions C15_sys_ctx_call_records.
+
+(** FitImage: pixel p of the (cropped) image goes where the documented placement puts it — at (x, y) + (p'/xres, p'/yres) with p'
+    mirrored within the image's own box exactly in the flipped coordinate systems (upright, as for DrawImage) *)
+Theorem C15_fit_image_matrix_point : forall W H s x y xres yres wc hc p,
+  ~ xres == 0 -> ~ yres == 0 ->
+  let q := image_flip (csysm s) wc hc p in
+  pteq (mdot (fit_image_matrix W H s x y xres yres wc hc) p) (mdot (base_matrix W H s x y) (fst q / xres, snd q / yres)).
+Proof. exact fit_image_matrix_point. Qed.
+Print Assumptions C15_fit_image_matrix_point.
+
+Theorem C15_fit_image_upright : forall W H s x y xres yres wc hc,
+  ~ xres == 0 -> ~ yres == 0 ->
+  mdet (fit_image_matrix W H s x y xres yres wc hc) == mdet (cview s) / (xres * yres).
+Proof. exact fit_image_upright. Qed.
+Print Assumptions C15_fit_image_upright.
+
+(** ImageFill and ImageCover lay the (cropped) image exactly over the rectangle *)
+Theorem C15_fit_fill_cover_box : forall r fit wpx hpx,
+  (fit = 0 \/ fit = 2)%Z -> 0 < rW r -> 0 < rH r ->
+  let '(x, y, xres, yres, dx, dy) := fit_params r fit wpx hpx in
+  let wc := (wpx - 2 * dx)%Z in let hc := (hpx - 2 * dy)%Z in
+  x == rx0 r /\ y == ry0 r /\ xres * rW r == inject_Z wc /\ yres * rH r == inject_Z hc.
+Proof. exact fit_fill_cover_box. Qed.
+Print Assumptions C15_fit_fill_cover_box.
+
+(** ImageContain keeps the aspect ratio (one resolution), stays inside the rectangle and is centred *)
+Theorem C15_fit_contain_inside : forall r wpx hpx,
+  0 < rW r -> 0 < rH r -> (0 < wpx)%Z -> (0 < hpx)%Z ->
+  let '(x, y, xres, yres, dx, dy) := fit_params r 1 wpx hpx in
+  xres == yres /\ dx = 0%Z /\ dy = 0%Z /\ 0 < xres /\
+  rx0 r <= x /\ x + inject_Z wpx / xres <= rx1 r /\ ry0 r <= y /\ y + inject_Z hpx / yres <= ry1 r /\
+  x - rx0 r == rx1 r - (x + inject_Z wpx / xres) /\ y - ry0 r == ry1 r - (y + inject_Z hpx / yres).
+Proof. exact fit_contain_inside. Qed.
+Print Assumptions C15_fit_contain_inside.
+
+Theorem C15_fit_image_handed_on : forall W H c r fit id wpx hpx rp,
+  In rp (snd (ctx_step W H c (FitImage r fit id wpx hpx))) ->
+  let '(x, y, xres, yres, dx, dy) := fit_params r fit wpx hpx in
+  rm rp = fit_image_matrix W H (ccur c) x y xres yres (wpx - 2 * dx) (hpx - 2 * dy) /\
+  robj rp = OImage id (wpx - 2 * dx) (hpx - 2 * dy).
+Proof. exact fit_image_handed_on. Qed.
+Print Assumptions C15_fit_image_handed_on.
+
+(** ImageCover keeps at least one column and one row of pixels and positive resolutions, so the matrix is finite *)
+Theorem C15_fit_cover_keeps_pixels : forall r wpx hpx,
+  0 < rW r -> 0 < rH r -> (0 < wpx)%Z -> (0 < hpx)%Z ->
+  let '(x, y, xres, yres, dx, dy) := fit_params r 2 wpx hpx in
+  (0 < wpx - 2 * dx)%Z /\ (0 < hpx - 2 * dy)%Z /\ 0 < xres /\ 0 < yres.
+Proof. exact fit_cover_keeps_pixels. Qed.
+Print Assumptions C15_fit_cover_keeps_pixels.
